@@ -38,6 +38,10 @@ type HPACK struct {
 	// maxTableSize coming from the settings frame
 	maxTableSizeSettings uint32
 
+	// nextFields counts the fields Next has decoded from the header block it
+	// is in the middle of.
+	nextFields int
+
 	// pendingSizeUpdate is set when the maximum table size changed and the peer
 	// has not been told yet. Shrinking the table without saying so leaves the
 	// peer's decoder with entries we no longer have, which shows up later as a
@@ -107,6 +111,7 @@ func (hp *HPACK) Reset() {
 	hp.maxTableSizeSettings = defaultHeaderTableSize
 	hp.pendingSizeUpdate = false
 	hp.DisableCompression = false
+	hp.nextFields = 0
 }
 
 // SetMaxTableSize sets the maximum dynamic table size.
@@ -258,8 +263,19 @@ func releaseScratch(b *[]byte) {
 //
 // This function returns the next byte slice that should be read.
 // `b` must be a valid payload coming from a Header frame.
+//
+// Next takes `b` for what is left of one header block: the block ends when
+// Next has consumed all of it. A dynamic table size update is only accepted
+// before the first field of a block.
 func (hp *HPACK) Next(hf *HeaderField, b []byte) ([]byte, error) {
-	return hp.nextField(hf, true, 0, b)
+	b, err := hp.nextField(hf, true, hp.nextFields, b)
+	if err != nil || len(b) == 0 {
+		hp.nextFields = 0
+	} else {
+		hp.nextFields++
+	}
+
+	return b, err
 }
 
 // nextField decodes one header field. blockStart says whether b is the start
